@@ -345,13 +345,13 @@ def attrsWF (G : AGrammar) : Bool :=
 
 /-- The user's start symbol is applied once per derivation: either it is the start symbol and on no
     right-hand side, or (LALR augmentation `S' → S`) the start symbol is on no right-hand side, has
-    the single production `[S]`, and `S` is on no other right-hand side. -/
+    the single production `S' → S` (no attribute), and `S` is on no other right-hand side. -/
 def startIsolated (G : AGrammar) : Bool :=
   G.userNts.contains G.userStart &&
   G.prods.all (fun pr => pr.rhs.all (fun s => s.sym != .n G.start)) &&
   (G.userStart == G.start ||
     (G.prods.all (fun pr =>
-      if pr.lhs == G.start then pr.rhs.map (·.sym) == [.n G.userStart]
+      if pr.lhs == G.start then pr.rhs == [⟨.n G.userStart, .none⟩]
       else pr.rhs.all (fun s => s.sym != .n G.userStart))))
 
 /-! ## Rebuilding the forest from a trace (checker for the oracle; its result is validated by
